@@ -1097,12 +1097,16 @@ fn evaluate_scalar_func(
                 ));
             }
 
-            // Find the first non-null data type
+            // The common type of the arguments (as for CASE branches):
+            // COALESCE(bigint_col, integer_col) used to zip an Int64 array with
+            // an Int32 one and fail with "arguments need to have the same data
+            // type" — on the layouts where some row reached the expression.
             let target_type = evaluated_args
                 .iter()
                 .map(|arr| arr.data_type().clone())
-                .find(|dt| *dt != DataType::Null)
-                .unwrap_or(DataType::Null);
+                .fold(DataType::Null, |acc, dt| {
+                    crate::planner::case_common_type(&acc, &dt)
+                });
 
             // If all arguments are null type, return the first one
             if target_type == DataType::Null {
@@ -1116,12 +1120,14 @@ fn evaluate_scalar_func(
                 .map(|arr| {
                     if arr.data_type() == &DataType::Null {
                         // Create a null array of the target type
-                        arrow::array::new_null_array(&target_type, num_rows)
+                        Ok(arrow::array::new_null_array(&target_type, num_rows))
+                    } else if arr.data_type() != &target_type {
+                        Ok(compute::cast(arr, &target_type)?)
                     } else {
-                        arr.clone()
+                        Ok(arr.clone())
                     }
                 })
-                .collect();
+                .collect::<Result<Vec<ArrayRef>>>()?;
 
             // Start with the first argument
             let mut result = converted_args.first().unwrap().clone();
